@@ -20,6 +20,7 @@ NONE = {'sh': [-1], 'd': []}
 NOAXIS = -99
 ELEM2 = ['add', 'sub', 'mul', 'lt', 'le', 'gt', 'ge', 'eq', 'ne', 'minimum', 'maximum']
 ELEM1 = ['neg', 'abs', 'sgn']
+KEEPDIMS = ('amin', 'amax', 'argmin', 'argmax')      # reductions whose np_ method has a keepdims parameter
 REDUCE = ['sum', 'prod', 'all', 'any', 'amin', 'amax', 'argmin', 'argmax']
 LANE = ['cumsum', 'sort', 'flip', 'roll']
 SHAPE = ['reshape', 'flatten', 'transpose', 'swapaxes', 'expand_dims', 'squeeze', 'getitem', 'slice', 'copy', 'io']
@@ -93,11 +94,14 @@ def gen_cases(rnd, kind, n_per_fn, P=0, F=0):
                 A = {'sh': list(sh), 'd': [rnd.choice([0, 1, 1]) << (F if kind == 'fxp' else 0) for _ in range(size(sh))]}
             else:
                 A = arr(sh)
-            add(fn, A, axis=ax)
+            add(fn, A, axis=ax, k2=rnd.choice([0, 0, 1]) if fn in KEEPDIMS else 0)       # k2 = 1: keepdims=True
     if kind != 'fld':
         for fn in ('argmin', 'argmax', 'amin', 'amax', 'sum'):
             add(fn, arr([2, 2, 2]), axis=0)       # reductions along an axis that is not one of the last two
             add(fn, arr([2, 1, 3]), axis=-3)
+            if fn in KEEPDIMS:
+                add(fn, arr([2, 2, 2]), axis=0, k2=1)
+                add(fn, arr([2, 3, 2]), axis=1, k2=1)
     for fn in LANE:
         for sh in rnd.sample(nd, min(len(nd), n_per_fn)):
             ax = rnd.choice([NOAXIS] + list(range(-len(sh), len(sh))))
@@ -212,7 +216,9 @@ async def evaluator(mpc, c, idx, arg):
             return a @ b
         if fn == 'outer':
             return np.outer(a, b)
-        if fn in ('sum', 'prod', 'all', 'any', 'amin', 'amax', 'argmin', 'argmax', 'cumsum'):
+        if fn in ('sum', 'prod', 'all', 'any', 'amin', 'amax', 'argmin', 'argmax'):
+            return getattr(np, fn)(a, axis=axis, keepdims=True) if k2 == 1 else getattr(np, fn)(a, axis=axis)
+        if fn == 'cumsum':
             return getattr(np, fn)(a, axis=axis)
         if fn == 'sort':
             return np.sort(a, axis=axis)
